@@ -28,10 +28,10 @@ sm("C03", "Capacity as a TLC invariant (CapInv, CapObs) over all growth actions 
 sm("C08", "Every method taking an int x every index in -(L+1)..L+1 plus MinInt/MaxInt x lengths 0-4 x the four index-option sets enumerated by TLC (IdxMode=all) and replayed with a post-call re-validation of IsInit, Kind, Len, every Index, the configuration record and the raw slots; every method with an any / ...any / Operator parameter (found by reflection) x 38 awkward Go values, each followed by a usability probe, validated by Frame.tla's AwkwardRule (no panic, receiver still usable).", frame=True)
 sm("C09", "ReadOnlyFrame checked by TLC on every enabled transition of the state machine started read-only (all call families); tables and traces replayed on the real Stack; every exported method of Stack and Condition (reflection) called on read-only receivers singly and in random sequences of 2-4, each event validated by Frame.tla's ReadOnlyRule against a deep VerifDump snapshot; afterwards the flag is cleared (snapshot must equal the one at flag-set time) and a setter must take effect again.", frame=True)
 sm("C13", "NoNestPush and option/content independence checked by TLC; push batches over {nil, leaf, native Stack, alias, pointer-to-alias, Condition} interleaved with set/clear/toggle of no-nesting on every kind replayed on real Stacks (content, CanNest, IsNesting, raw option bits).")
-sm("C14", "PolicyDecides checked by TLC over all batches of length 1-3 against every accept-set (8 subsets) with and without capacity; the installed Go closure records its consult log, which is compared (count and order) together with content and Err() after every step.")
+sm("C14", "PolicyDecides checked by TLC over all batches of length 1-3 against every accept-set (8 subsets) with and without capacity; the installed Go closure records its consult log, which is compared (count and order) together with content and Err() after every step. ClosuresDecide over every install / remove sequence of the validity, presentation, equality, marshal, unmarshal and COMPARISON closures on all five kinds: Valid(), the source of String() / IsEqual / Unmarshal, Marshal's result and Less(0,1) / Less(1,0) / Less(0,0) are compared after every step; without a comparison closure Less must be the built-in byte order of the element texts of the CURRENT content (ListOps!LessL) - the instance that exposed the SetLessFunc() snapshot defect repaired by dbc1c3b.")
 sm("C15", "TransferFrame checked by TLC over a two-handle state machine (source length 0-4 with nil elements, LIFO/FIFO; destination length 0-4, capacity none or 1-5, read-only / zero / no-nesting destinations; destination given as native, alias, pointer or foreign value); both handles observed in full after every replayed step.")
 sm("C17", "Lifecycle (zero / live / freed) in the state machine: Inert checked by TLC on every transition from the dead state, Free and Reset semantics; every exported method (reflection) called on zero and freed Stacks and Conditions with plain and awkward arguments, each event validated by Frame.tla's InertRule (no panic, no resurrection except Marshal/Init, zero results except the documented sentinels).", frame=True)
-sm("C18", "OptIndependence and the FIFO latch checked by TLC; exhaustive sequences of {set, clear, toggle} x 8 options to depth 3 (quick) / 4 (thorough) replayed with raw option bits (verif hook) and getters compared; ID, category, delimiter (LIST only), symbol (non-LIST only), encapsulation pairs (duplicate characters refused) in a second instance; random mixed sequences validated as traces.")
+sm("C18", "OptIndependence and the FIFO latch checked by TLC; exhaustive sequences of {set, clear, toggle} x 8 options to depth 3 (quick) / 4 (thorough) replayed with raw option bits (verif hook) and getters compared; ID, category, delimiter (LIST only), symbol (non-LIST only), encapsulation pairs (duplicate characters refused) in a second instance; log levels (names, constants, raw integers, all / none) and the auxiliary map (never set / fresh / the caller's populated map / the caller's EMPTY map, each kept by reference) and the logger selection in further instances; random mixed sequences validated as traces.")
 
 sm("C06", "Condition state machine (spec/CondCore.tla, CondMC.tla): TLC checks on every enabled transition that accepted arguments are stored and rejected ones (nil / empty-text / empty-context operators, nil and empty-string expressions, Stack expressions under no-nesting, any expression while Err() is set) leave keyword / operator / expression unchanged, that Valid() is nil exactly under the stated conditions and that String() is empty iff Valid() fails; every transition, all paths to depth 2-3 from Cond(...) and Init(), and random walks are replayed on real Conditions with Keyword / Operator / Expression / Valid / the exact String() text compared; random histories are validated by CondTrace.tla.")
 DESC["C06"]["technique"] = DESC["C06"]["technique"].replace("spec/Stackage.tla", "spec/CondMC.tla (CondCore.tla)").replace("StackageTrace.tla", "CondTrace.tla")
@@ -47,37 +47,37 @@ DESC["C07"] = dict(technique=CASES + " (spec/Traverse.tla, Gen_Traverse.tla, Che
    note="Exhaustive only within the stated shapes; result identity is established through Addr() of nested Stacks / Conditions and unique leaf texts assigned by the harness.")
 
 DESC["C19"] = dict(technique=CASES + " (spec/Defrag.tla: DefragSpec = the property, DefragAsBuilt = transcription used only to recognise the listed known finding)", design_ref="DESIGN.md section 4 C19",
-   text="Exhaustive: every nil / non-nil pattern of length 0..8 (quick) / 0..12 (thorough) x 4 scan limits x 4 index-option sets x nesting position, inside the property's domain; TLC checks the laws of DefragSpec and emits the expected tree; the real Defrag's resulting tree (raw slots through the verif hook) and Err() are compared. Deviations that equal the DefragAsBuilt prediction on an input of the listed class are the open known finding (KNOWN-FINDING, exit 0); anything else is a VIOLATION. Random longer patterns are classified by Check_Defrag.tla.",
+   text="Exhaustive: every nil / non-nil pattern of length 0..8 (quick) / 0..12 (thorough) x 4 scan limits x 4 index-option sets x nesting position (top, in a Stack, in a Condition, in alias forms, and two levels down through a Stack / a Condition / both), inside the property's domain; TLC checks the laws of DefragSpec and emits the expected tree; the real Defrag's resulting tree (raw slots through the verif hook) and Err() are compared. Deviations that equal the DefragAsBuilt prediction on an input of the listed class are the open known finding (KNOWN-FINDING, exit 0); anything else is a VIOLATION. Random longer patterns are classified by Check_Defrag.tla.",
    note="The package's Defrag is defective and cannot be repaired under the constraints (an existing test pins a wrong outcome); the check therefore passes with a KNOWN-FINDING line and still reports any behaviour that differs from both the property and the listed as-built outcome.")
 
 DESC["C20"] = dict(technique=CASES + " (spec/Reveal.tla: the specification is a SET of allowed results, membership is checked)", design_ref="DESIGN.md section 4 C20",
-   text="Reach(t), the closure of the single allowed rewrite, is computed by TLC for ~15k (quick) trees; for every member TLC proves leaf-sequence preservation, non-growing depth, survival of parenthetical and NOT stacks and equality of the fully-unwrapped normal form; the real Reveal, executed under a watchdog on trees with mutex-enabled nodes, must return a member (a hang is a deadlock violation). Random deeper trees are validated by Check_Reveal.tla.",
+   text="Reach(t), the closure of the single allowed rewrite (a parenthetical child - Stack or Condition - protects its wrapper), is computed by TLC for ~17k (quick) trees incl. a family with forward / negative index options on the receiver and on nested stacks; for every member TLC proves leaf-sequence preservation, non-growing depth, survival of parenthetical and NOT stacks and equality of the fully-unwrapped normal form; the real Reveal, executed under a watchdog on trees with mutex-enabled nodes, must return a member (a hang is a deadlock violation). Random deeper trees are validated by Check_Reveal.tla.",
    note="The property constrains what Reveal may do, not how much it must do: a Reveal that unwraps less is accepted. Exhaustive only within the stated families.")
 
 DESC["C04"] = dict(technique=CASES + " (spec/Codec.tla, Gen_Codec.tla, Check_Codec.tla)", design_ref="DESIGN.md section 4 C04",
    text="UnmarshalSpec and Decode (Marshal) are TLA+ operators; TLC proves Decode(UnmarshalSpec(t)) = Struct(t) for ~3.4k enumerated trees (all of depth<=2/width<=2 over five kinds, nil leaves, Conditions with primitive / Stack / Condition expressions, plus depth-3 and case-fold / alias families) and emits the expected Unmarshal result; the real Unmarshal, the Marshal into a zero Stack in both call forms, a structural walk of the reconstruction, the second Unmarshal and IsEqual in both directions are compared. Random deeper trees are validated by Check_Codec.tla.",
    note="Exhaustive only within the stated shapes; Conditions are valid ones (a Condition without operator unmarshals an untyped nil); capacity is not part of the generated trees.")
 DESC["C16"] = dict(technique=CASES + " (spec/Codec.tla with explicit nondeterminism for malformed input)", design_ref="DESIGN.md section 4 C16",
-   text="Decode is total over a junk universe; ~20k enumerated junk trees x 2 call forms x {zero, initialised} receivers are fed to the real Marshal under recover: it must return, report an error or leave an initialised receiver on which String / Unmarshal / IsEqual return normally; for well-formed input (labels in any case, unknown label => BASIC holding all entries, initialised receiver gains one element) the outcome is compared exactly. Random junk is validated by Check_Codec.tla.",
+   text="Decode is total over a junk universe; ~20k enumerated junk trees x 2 call forms x {zero, initialised} receivers are fed to the real Marshal under recover: it must return, report an error or leave an initialised receiver on which String / Unmarshal / IsEqual (against itself, an unrelated stack and an independent second decode of the same input, both ways) return normally; for well-formed input (labels in any case, unknown label => BASIC holding all entries, initialised receiver gains one element) the outcome is compared exactly. Random junk is validated by Check_Codec.tla.",
    note="For malformed CONDITION rows and undecodable nested slices the specification is deliberately nondeterministic (error or any initialised stack).")
 
 DESC["C05"] = dict(technique=CASES + " (spec/Equal.tla: Canon / Mutants / Neutral)", design_ref="DESIGN.md section 4 C05",
-   text="Eq(a,b) is equality of canonical descriptions; TLC proves on every enumerated tree that every single point mutation breaks Eq and every neutral variation keeps it, then emits (tree, copy), (tree, mutant) and (tree, neutral variant) pairs; both sides are built by two independent calls of the concretiser and IsEqual must answer nil / error accordingly in BOTH directions without panicking. ~4.8k pairs (quick) over 20 leaf classes in three positions; random pairs validated by Check_Equal.tla.",
+   text="Eq(a,b) is equality of canonical descriptions; TLC proves on every enumerated tree that every single point mutation breaks Eq and every neutral variation keeps it, then emits (tree, copy), (tree, mutant) and (tree, neutral variant) pairs; both sides are built by two independent calls of the concretiser and IsEqual must answer nil / error accordingly in BOTH directions without panicking. ~7k pairs (quick) over 27 leaf classes in three positions - primitives, pointers at depth 1-2, typed slices and arrays, []*int with nil pointers, []any of mixed leaves (nil, pointers, slices, maps, structs, nested []any), map[string]int, map[string]any, structs with an unexported field - with element typing and backing capacity of a slice as neutral variations and nil<->value, letter case of keywords / user operator texts as mutations; random pairs validated by Check_Equal.tla.",
    note="Exhaustive only within the stated leaf classes and positions; error text is never compared; functions / channels / unsafe pointers are covered by C08's awkward-value sweep (no panic), not by equality semantics.")
 
 DESC["C12"] = dict(technique=CASES + "; alias value classes S/A/P in the Stackage / CondMC state machines; spec/Convert.tla", design_ref="DESIGN.md section 4 C12",
-   text="The specification operators are defined on trees whose nodes carry a 'form' tag that no operator reads, so alias equivalence is a theorem of the spec by construction; the conformance side instantiates every tree family (render, IsEqual incl. form change as a neutral variation, codec, Traverse, Defrag, Reveal) with nested nodes in native / alias / delegating-String alias / unrelated-String alias / pointer-to-alias form and compares the real results with the form-erased expectation; no-nesting, IsNesting, Condition.SetExpression / Len and Transfer destinations use the S/A/P value classes in the state machines; ConvertStack / ConvertCondition are checked over 17 value classes x 2 functions.",
+   text="The specification operators are defined on trees whose nodes carry a 'form' tag that no operator reads, so alias equivalence is a theorem of the spec by construction; the conformance side instantiates every tree family (render, IsEqual incl. form change as a neutral variation, codec, Traverse, Defrag, Reveal) with nested nodes in native / alias / delegating-String alias / unrelated-String alias / pointer-to-alias form and compares the real results with the form-erased expectation; Len / IsNesting / IsEmpty of EVERY Stack and Condition node of the alias trees are compared with Measure (spec/Trees.tla; a Condition holding a Stack in any form has that Stack's length); no-nesting, IsNesting, Condition.SetExpression and Transfer destinations use the S/A/P value classes in the state machines; ConvertStack / ConvertCondition are checked over 17 value classes x 2 functions.",
    note="Alias types are declared in the harness (AStack, WStack, XStack, ACond, WCond, XCond); Defrag cases inherit the open Defrag finding (reported as KNOWN-FINDING under C12 as well).")
 
-DESC["C10"] = dict(technique="TLC model checking of spec/Concurrent.tla (all schedules at lock-acquisition granularity, Linearizable / CapRespected / OnlyUserValues) + every enumerated schedule forced on real goroutines through the verif lock hook + linearisation search over the recorded histories by spec/LinTrace.tla + free-running rounds in a -race build with race reports classified by spec/RaceClass.tla",
-   design_ref="DESIGN.md section 4 C10",
-   text="Concurrent.tla models each mutator as an unlocked wrapper guard followed by an atomic critical section; TLC enumerates every schedule of 2 goroutines x 1 call (all 8 mutators, lengths 0-3, LIFO/FIFO, capacity none/2; exhaustive), 2x2 and 3x1 (sampled in quick, exhaustive in thorough), proves each outcome linearisable, and emits (program, schedule, predicted outcome). The harness parks real goroutines before each call and before mutex.Lock(), so each schedule runs deterministically; LinTrace.tla searches for a sequential explanation of every recorded history; the driver additionally checks per segment that content changes only between lock.held and lock.release and that the lock bookkeeping is written under the lock. Free-running 6-goroutine rounds in a -race build are judged the same way; race reports are classified by RaceClass.tla.",
+DESC["C10"] = dict(technique="TLC model checking of spec/Concurrent.tla (all schedules at lock-acquisition granularity, Linearizable / CapRespected / OnlyUserValues) + every enumerated schedule forced on real goroutines through the verif lock hook + linearisation search over the recorded histories by spec/LinTrace.tla + sequential runs with sampler goroutines reading Len() throughout, judged by spec/Watch.tla (what an unlocked reader may see during one critical section) + free-running rounds in a -race build with race reports classified by spec/RaceClass.tla",
+   design_ref="DESIGN.md section 4 C10 and section 11.2",
+   text="Concurrent.tla models each mutator as an unlocked wrapper guard followed by an atomic critical section; TLC enumerates every schedule of 2 goroutines x 1 call (all 8 mutators, lengths 0-3, LIFO/FIFO, capacity none/2; exhaustive), 2x2 and 3x1 (sampled in quick, exhaustive in thorough), proves each outcome linearisable, and emits (program, schedule, predicted outcome). The harness parks real goroutines before each call and before mutex.Lock(), so each schedule runs deterministically; LinTrace.tla searches for a sequential explanation of every recorded history; the driver additionally checks per segment that content changes only between lock.held and lock.release and that the lock bookkeeping is written under the lock. Because the wrappers decide emptiness BEFORE they lock, atomicity also needs that no critical section shows the stack shorter or longer than both its ends: thousands of sequential mutator runs are executed while three goroutines sample Len(), and Watch.tla accepts a run iff returns and final content follow ListOps!Step and every sampled length lies between the specified lengths before and after the call (this stage catches the FIFO pop() transient repaired by 89d56d0). Free-running 2-5-goroutine rounds with a spin-aligned start in a -race build are judged by LinTrace.tla as well; race reports are classified by RaceClass.tla.",
    note="The 'no data race' clause rests on the Go race detector over spec-derived workloads (timing dependent: it can add findings, its silence proves nothing). One open known finding: unlocked pre-check reads in the wrappers and in lock() race with writes inside critical sections (KNOWN-FINDING); any other report, any non-linearisable history, panic, deadlock, capacity overflow or configuration-as-element is a VIOLATION.")
 
-DESC["C11"] = dict(technique="reflection sweep over every non-mutating method validated by spec/Frame.tla (QueryRule) + parallel query answers recorded from 12-16 goroutines in a -race build and validated answer by answer by spec/Check_Queries.tla (Render, Lookup, TraverseSpec, UnmarshalSpec) + race reports classified by spec/RaceClass.tla (MODE=queries: none allowed)",
+DESC["C11"] = dict(technique="reflection sweep over every non-mutating method validated by spec/Frame.tla (QueryRule) + parallel query answers recorded from 12-16 goroutines in a -race build and validated answer by answer by spec/Check_Queries.tla (Render, Lookup, TraverseSpec, UnmarshalSpec, LessSpec of spec/Order.tla) + race reports classified by spec/RaceClass.tla (MODE=queries: none allowed)",
    design_ref="DESIGN.md section 4 C11",
-   text="Purity: each declared query (Frame.tla lists the mutators; everything else the reflection enumeration finds is a query candidate) is called on 17 receiver kinds, writable and read-only, with a deep VerifDump snapshot before and after, a repeat call, and a scribble over the returned Unmarshal container. Concurrency: on random shared structures with mutex-enabled nodes (half of them read-only) 12-16 goroutines issue 26 queries in random order three times; the isolated answers and every goroutine's answers must equal the answers the TLA+ specification computes for that tree; the run is a -race build and no race report is accepted.",
-   note="The absence-of-race clause rests on the Go race detector (timing dependent). Less() is checked for purity, not for its ordering.")
+   text="Purity: each declared query (Frame.tla lists the mutators; everything else the reflection enumeration finds is a query candidate) is called on 17 receiver kinds, writable and read-only, with a deep VerifDump snapshot before and after, a repeat call, and a scribble over the returned Unmarshal container. Concurrency: on random shared structures with mutex-enabled nodes (half of them read-only) 12-16 goroutines issue 34 queries (8 of them Less(i,j) on random index pairs) in random order three times; the isolated answers and every goroutine's answers must equal the answers the TLA+ specification computes for that tree; the run is a -race build and no race report is accepted.",
+   note="The absence-of-race clause rests on the Go race detector (timing dependent). Less() answers are judged by Order.tla (byte order of the element texts; alias forms without a String method have no text).")
 
 def main():
     commits = subprocess.run(["git", "-C", "/repo", "log", "--format=%h %s", "--grep=^verif:"],
